@@ -666,7 +666,39 @@ def r30(ctx):
     ctx.ob('C20.R30', fn, walks[0] if walks else fn.body, ok, 'removal from the name index', 'walks over every entry of m_messagesByName: %s' % ok)
 
 
+def r33(ctx):
+    ctx.rule('C20.R33', 'a vector is not walked while it can grow: in MessageMap::executeInstructions the innermost range-for '
+             'around the call of Instruction::execute walks a local COPY of the stored instruction vector (a local of value '
+             'type), not a reference into m_instructions - executing a load instruction reads a file whose !include / !load '
+             'lines are appended to the stored vector of that file, and a definition file that includes itself reallocates '
+             'the vector under the loop (use after free on definition text)', minimum=1)
+    fb = ctx.fb
+    fn = fb.fn('ebusd::MessageMap::executeInstructions')
+    ctx.touch(fn)
+    decls = {}
+    for x in fn.all('DeclStmt'):
+        for d in fn.nodes[x].get('decls', []):
+            decls[d['decl']] = d
+    n = 0
+    for c in fn.calls('execute'):
+        if not (fn.nodes[c].get('callee') or '').endswith('Instruction::execute'):
+            continue
+        loops = [a for a in fn.ancestors(c) if fn.nodes[a]['k'] == 'CXXForRangeStmt']
+        if not loops:
+            raise AnalysisBroken('C20.R33: Instruction::execute is not called from a range-for')
+        lp = loops[0]
+        rng = fn.nodes[fn.strip(fn.nodes[lp]['range'], casts=True)]
+        n += 1
+        d = decls.get(rng.get('decl')) if rng.get('k') == 'DeclRefExpr' and rng.get('rk') == 'local' else None
+        ok = d is not None and not (d.get('t') or '').rstrip().endswith('&') and not d.get('ptr')
+        ctx.ob('C20.R33', fn, lp, ok, 'loop that executes the instructions walks %s' % fn.key(fn.nodes[lp]['range']),
+               'a local copy (value type %s): %s' % ((d or {}).get('t'), ok))
+    if n < 1:
+        raise AnalysisBroken('C20.R33: the call of Instruction::execute was not found')
+
+
 def run(ctx):
+    r33(ctx)
     import rules.C04 as _c04d
     ctx.borrow(_c04d.r16, {'C04.R16': 'C20.R31'}, 'processing terminates within bounded work: the drain of the request queue on signal loss must end')
     import rules.C08 as _c08a
